@@ -320,6 +320,26 @@ def run(prop: str, tier: str, seed: int) -> int:
                       "plans": [{"plan": [r[:] for r in p], "errors": small(v)}]})
         rep.family("maximised-by-local-search", 1, 1)
         rep.nontrivial += 1
+    # many teams: the shipped instances go up to 40 teams; team ids around word sizes and the int8 edge
+    for n in {"quick": [32, 34, 40], "thorough": [32, 34, 36, 40, 64, 66, 126, 128, 130]}[tier]:
+        rounds = 2 if n <= 40 else 1
+        ll = rounds * n - 1
+        c = {} if n != 34 else {"hmin": 2, "hmax": 4, "amin": 1, "amax": 3, "smin": 1, "smax": ll}
+        inst = tp.make_instance(n, rounds, c)
+        eo = ErrObj(inst)
+        days = (n - 1) * rounds
+        plans = []
+        for kind in ("circle", "circle-one-wrong", "consistent", "byes", "arbitrary"):
+            if kind.startswith("circle"):
+                rows = tp.circle_schedule(n, rounds, rng)
+                if kind == "circle-one-wrong":
+                    rows[rng.randrange(days)][rng.randrange(n)] = rng.choice([-n, n, n - 1, 1 - n])
+            else:
+                rows = tp.random_plan(rng, n, days, kind)
+            plans.append({"plan": rows, "errors": small(eo.eval(rows))})
+        cases.append({"id": f"many-teams-{n}", "cfg": tp.cfg_of(inst), "ub": small(eo.ub), "plans": plans})
+        rep.family("many-teams(32..130)", len(plans), len(plans))
+        rep.nontrivial += len(plans)
     # long seasons: day indices beyond the int8 range (scratch arrays must be wide enough)
     n_long = {"quick": 24, "thorough": 160}[tier]
     for k in range(n_long):
